@@ -117,7 +117,12 @@ class Builder:
         self.client_ac = {k: dict(v) for k, v in self.ac.items()}
 
     def zone_status(self, role):
-        line = S.m_zone_status(self.inst, self.zone)
+        unknown = None
+        if self.inst.zones and self.rng.random() < 0.25:
+            free = [z for z in range(16) if z not in self.inst.zones]
+            if free:
+                unknown = self.rng.choice(free)       # a zone / group enabled on the console after the client was initialised, listed first
+        line = S.m_zone_status(self.inst, self.zone, unknown_first=unknown)
         unchanged = self.zone == self.client_zone
         self.add(line, role, "unchanged" if unchanged else "changed")
         self.client_zone = {k: dict(v) for k, v in self.zone.items()}
